@@ -291,6 +291,9 @@ def refusal_suite(ctx):
 
 
 def run(ctx):
+    from harness.props import sem_common
+
+    sem_common.run_semantics_suite(ctx, ctx.pick(60, 600))
     ctx.rule("all integer lists over 0..n, n<=5 (quick 4) as candidate mappings (exhaustive); all permutations of registers "
              "1..5 (quick 1..4) on seed circuits with every statement kind (nested controls, matrix gates), random "
              "permutations up to 12; circuits after decompose/merge/replace incl. a callback returning one object twice; "
